@@ -61,7 +61,21 @@ type Value struct {
 	Nat  *Native
 }
 
-type Array struct{ List []*Value }
+// Array: Unordered marks the result of Dict.keys/values/items of a dict with several
+// entries — its element order is unspecified, so only order-insensitive uses
+// (len, integer sum/kh/kl, comparison with the VM as a multiset) are decided.
+type Array struct {
+	List      []*Value
+	Unordered bool
+}
+
+func (a *Array) orderMatters() bool { return a.Unordered && len(a.List) > 1 }
+
+func needOrder(v *Value, what string) {
+	if v.K == KArr && v.Arr.orderMatters() {
+		panic(&Unsupported{Why: what + " of an array whose order is unspecified (dict keys/values/items)"})
+	}
+}
 
 // Dict keys are strings; numeric keys are stringified (GUIDE "字典": "字典的键必须为字符串，
 // 实际操作中也允许数字类型，但是会自动转换为字符串").  Iteration order is unspecified.
@@ -156,25 +170,25 @@ func (v *Value) TypeId() int64 {
 // functions "function name", natives "nfunction name".
 
 type strState struct {
-	onPath       map[any]bool
-	seen         map[any]bool
-	refuseShared bool
+	onPath   map[any]bool
+	seen     map[any]bool
+	onShared func() // called when a container is met a second time outside a cycle
 }
 
 // ToStr returns the toStr() form and "" — or a reason why the form is not defined.
-// refuseShared: also refuse a container that is reachable twice without a cycle
-// (its text is the text of its contents; used while the implementation's
-// "[...]" for the second occurrence is an open finding).
-func ToStr(v *Value, refuseShared bool) (string, string) {
-	st := &strState{onPath: map[any]bool{}, seen: map[any]bool{}, refuseShared: refuseShared}
+// onShared (may be nil) is told when a container is reachable twice without a
+// cycle: its text is then simply written twice (the text of a value is the text
+// of its contents; GUIDE: repr is "类似于python的同名函数").
+func ToStr(v *Value, onShared func()) (string, string) {
+	st := &strState{onPath: map[any]bool{}, seen: map[any]bool{}, onShared: onShared}
 	var sb strings.Builder
 	why := st.str(&sb, v, false)
 	return sb.String(), why
 }
 
 // ToRepr returns the repr() form.
-func ToRepr(v *Value, refuseShared bool) (string, string) {
-	st := &strState{onPath: map[any]bool{}, seen: map[any]bool{}, refuseShared: refuseShared}
+func ToRepr(v *Value, onShared func()) (string, string) {
+	st := &strState{onPath: map[any]bool{}, seen: map[any]bool{}, onShared: onShared}
 	var sb strings.Builder
 	why := st.str(&sb, v, true)
 	return sb.String(), why
@@ -198,10 +212,11 @@ func (st *strState) str(sb *strings.Builder, v *Value, repr bool) string {
 		if st.onPath[v.Arr] {
 			return "string form of a self-containing array"
 		}
-		if st.seen[v.Arr] && st.refuseShared {
-			// the same array reachable twice (a DAG, not a cycle): its text is the text of
-			// its elements, like any other array.
-			return "string form of a container that holds the same array twice"
+		if st.seen[v.Arr] && st.onShared != nil {
+			st.onShared()
+		}
+		if v.Arr.orderMatters() {
+			return "string form of an array whose order is unspecified"
 		}
 		st.onPath[v.Arr] = true
 		st.seen[v.Arr] = true
@@ -220,8 +235,8 @@ func (st *strState) str(sb *strings.Builder, v *Value, repr bool) string {
 		if st.onPath[v.Dict] {
 			return "string form of a self-containing dict"
 		}
-		if st.seen[v.Dict] && st.refuseShared {
-			return "string form of a container that holds the same dict twice"
+		if st.seen[v.Dict] && st.onShared != nil {
+			st.onShared()
 		}
 		if len(v.Dict.M) > 1 {
 			return "string form of a dict with several entries (order unspecified)"
